@@ -15,9 +15,12 @@ package main
 
 import (
 	"bytes"
+	"encoding/json"
 	"flag"
 	"fmt"
 	"math"
+	"os"
+	"os/exec"
 	"reflect"
 	"sort"
 	"strings"
@@ -1186,7 +1189,68 @@ func fillElem(v reflect.Value, seed int) {
 	}
 }
 
-func bigElemStream(r *vh.Rng, rounds int, sum *vh.Summary) {
+// bigReporter receives what the bigelem stream observes (the stream runs in a child process: a wrong
+// direct/indirect decision makes the runtime dereference element bytes, a fatal fault that cannot be recovered)
+type bigReporter interface {
+	Begin(cj map[string]interface{})
+	FailC(stream, class, what string, cj map[string]interface{})
+	Count(bucket, key string)
+}
+
+type bigLine struct {
+	T      string                 `json:"t"`
+	Class  string                 `json:"class,omitempty"`
+	What   string                 `json:"what,omitempty"`
+	Bucket string                 `json:"bucket,omitempty"`
+	Key    string                 `json:"key,omitempty"`
+	Cj     map[string]interface{} `json:"cj,omitempty"`
+}
+
+type bigPrinter struct{ w *json.Encoder }
+
+func (p bigPrinter) Begin(cj map[string]interface{}) { p.w.Encode(bigLine{T: "begin", Cj: cj}) }
+func (p bigPrinter) FailC(_, class, what string, cj map[string]interface{}) {
+	p.w.Encode(bigLine{T: "fail", Class: class, What: what, Cj: cj})
+}
+func (p bigPrinter) Count(bucket, key string) {
+	p.w.Encode(bigLine{T: "count", Bucket: bucket, Key: key})
+}
+
+// bigElemParent runs the stream in a child process and folds its report into sum.
+func bigElemParent(rounds int, sum *vh.Summary) {
+	cmd := exec.Command(os.Args[0], "-bigelem-child", fmt.Sprint(rounds))
+	var so, se bytes.Buffer
+	cmd.Stdout, cmd.Stderr = &so, &se
+	err := cmd.Run()
+	var last map[string]interface{}
+	for _, l := range strings.Split(so.String(), "\n") {
+		var bl bigLine
+		if json.Unmarshal([]byte(l), &bl) != nil {
+			continue
+		}
+		switch bl.T {
+		case "begin":
+			last = bl.Cj
+		case "fail":
+			sum.FailC("bigelem", bl.Class, bl.What, bl.Cj)
+		case "count":
+			sum.Count(bl.Bucket, bl.Key)
+		}
+	}
+	if err != nil {
+		if last == nil {
+			last = map[string]interface{}{}
+		}
+		st := se.String()
+		if len(st) > 300 {
+			st = st[:300]
+		}
+		last["stderr"] = st
+		sum.FailC("bigelem", fmt.Sprintf("crash:elemsize%v", last["elemsize"]), "Encode / Decode of a map with large elements crashed the process (fatal fault)", last)
+	}
+}
+
+func bigElemStream(r *vh.Rng, rounds int, sum bigReporter) {
 	elems := []reflect.Type{reflect.TypeOf(E120{}), reflect.TypeOf(E127{}), reflect.TypeOf(E128{}), reflect.TypeOf(E128b{}), reflect.TypeOf(E129{}), reflect.TypeOf(E136{})}
 	keys := []reflect.Type{reflect.TypeOf(int(0)), reflect.TypeOf(""), reflect.TypeOf(uint32(0)), reflect.TypeOf(int64(0)), reflect.TypeOf(KInt(0))}
 	for round := 0; round < rounds; round++ {
@@ -1227,6 +1291,7 @@ func bigElemStream(r *vh.Rng, rounds int, sum *vh.Summary) {
 					}
 					orig := build()
 					cj := map[string]interface{}{"format": format, "opts": o.String(), "key": kt.String(), "elem": et.String(), "elemsize": et.Size(), "n": n}
+					sum.Begin(cj)
 					canon, e1 := encBytes(h, build().Interface())
 					canon2, _ := encBytes(h, build().Interface())
 					plain, e2 := encBytes(hn, orig.Interface())
@@ -1343,6 +1408,7 @@ func nestedKeyStream(r *vh.Rng, rounds, reps int, sum *vh.Summary) {
 }
 
 func main() {
+	bigChild := flag.String("bigelem-child", "", "internal: run the bigelem stream (rounds) and print its report as json lines")
 	nNStruct := flag.Int("nstruct", 40, "nested maps with long struct keys")
 	nMaps := flag.Int("maps", 500, "maps (model-compared)")
 	nStruct := flag.Int("structs", 80, "structs with missing fields (model-compared)")
@@ -1350,6 +1416,12 @@ func main() {
 	reps := flag.Int("reps", 3, "encodings per built map")
 	cases := flag.String("cases", "/verif/build/c08/cases", "directory for the model case files")
 	flag.Parse()
+	if *bigChild != "" {
+		rounds := 1
+		fmt.Sscanf(*bigChild, "%d", &rounds)
+		bigElemStream(vh.NewRng(vh.SeedFromEnv()+7777), rounds, bigPrinter{json.NewEncoder(os.Stdout)})
+		return
+	}
 	r := vh.NewRng(vh.SeedFromEnv())
 	sum := vh.NewSummary("maps: 33 key kinds (float64/float32 maps holding one NaN key, interface{} keys mixing arrays/structs with scalars under json MapKeyAsString / simple EncZeroValuesAsNil, named int/string/int16 keys with Text / Binary / Selfer hooks, string, named string, intN, named int, uintN, uintptr, named uint, float32/64, named float, bool, time, time keys inside one second, time in several zones, struct, array, interface{} with distinct / with shared encodings, named fast-path map) x 5 formats x random options x sizes 1..24 x 3 insertion permutations x reps fresh Encoders x 4 goroutines x bytes/io (fresh io Encoder, the same Encoder after 1-3 Resets with WriterBufferSize 0/16/64/1024, twice in a row on one Encoder); distinct by (key kind, format, size, ties). struct: MissingFielder struct (declared fields always present / all omitempty with 0, 1, several or all present) x extra-field sets rebuilt in random order. structint: a struct with integer keys and MissingFielder extras (canonical = non-canonical after Decode). nested: maps/lists to depth 3 rebuilt in random insertion orders. bigelem: map[int|string|uint32|int64|named int]E with sizeof(E) in {120,127,128,129,136} (canonical fetches values by key). nestedkey: map[*K]string whose keys hold a map with array keys (re-entrant out-of-band encoding). nstruct: map[struct]map[struct]string and map[struct][]byte with 20-60 byte keys, up to 12x12, identical bytes across rebuilds and DeepEqual after Decode")
 	cv := vh.NewCases(*cases, "From Coq Require Import List NArith ZArith.\nFrom Verif Require Import C08.Model C08.Corr.\nImport ListNotations.", "case", "mismatches", 60)
@@ -1358,7 +1430,7 @@ func main() {
 	structIntStream(r.Fork(), *nStruct/3+8, *reps, cv, sum, id)
 	nestedStream(r.Fork(), *nNested, *reps, sum)
 	nestedStructStream(r.Fork(), *nNStruct, *reps, sum)
-	bigElemStream(r.Fork(), 1+*nNStruct/40, sum)
+	bigElemParent(1+*nNStruct/40, sum)
 	nestedKeyStream(r.Fork(), 4+*nNStruct/10, *reps, sum)
 	cv.Close()
 	sum.Print()
